@@ -26,7 +26,6 @@ import (
 	"reflect"
 	"runtime"
 	"sort"
-	"strconv"
 	"strings"
 	"sync"
 	"testing"
@@ -1359,9 +1358,6 @@ func TestCheck(t *testing.T) {
 	defer rec.Install()()
 
 	nSeq := r.Pick(20, 200)
-	if n, err := strconv.Atoi(os.Getenv("C13_SEQS")); err == nil && n > 0 {
-		nSeq = n
-	}
 	rnd := r.Rand("sequences")
 	seqs := make([][]op, nSeq)
 	nOps := 0
@@ -1376,9 +1372,6 @@ func TestCheck(t *testing.T) {
 	workers := runtime.NumCPU()
 	if workers > 14 {
 		workers = 14
-	}
-	if w, err := strconv.Atoi(os.Getenv("C13_WORKERS")); err == nil && w > 0 {
-		workers = w
 	}
 	for w := 0; w < workers; w++ {
 		wg.Add(1)
